@@ -111,6 +111,11 @@ theorem run_change_needs_two_thirds (st : Store) (us : List (Update × Nat))
 theorem rotate_only_to_next (st : Store) (u : Update) (h : (apply st u).cur ≠ st.cur) :
     st.next = some (apply st u).cur := Lc.rotate_only_to_next st u h
 
+/-- a rotation uses the stored next committee up: afterwards "next" is exactly what this update supplied (nothing, for a
+    finality update), never the committee that has just become current -/
+theorem rotation_consumes_next (st : Store) (u : Update) (h : (apply st u).cur ≠ st.cur) :
+    (apply st u).next = u.nextComm := Lc.rotation_consumes_next st u h
+
 /-- the next committee a VERIFIED update installs is the update's, and its attested header lies in the period of the
     store's finalized header after the update: the committee is the one for the period that follows -/
 theorem next_committee_period (st : Store) (u : Update) (now : Nat) (hv : verify st u now = .ok ())
@@ -183,6 +188,7 @@ example : verify st0 { u0 with finProofOk := false } (8192 * 10 + 201) = .error 
 #print axioms change_needs_two_thirds
 #print axioms run_change_needs_two_thirds
 #print axioms rotate_only_to_next
+#print axioms rotation_consumes_next
 #print axioms next_committee_period
 #print axioms bootstrap_sound
 #print axioms bootstrap_committee_branch_binds
